@@ -263,7 +263,11 @@ Progs ==
     <<"prog", << <<"p", "a">>, <<"s">>, <<"s">> >>, <<>>>>,                                        \* skip() at the end of input
     <<"prog", << <<"sv">>, <<"n">>, <<"n">>, <<"rw">>, <<"sub", 1>>, <<"chk", 2>> >>, <<J("a"), J("b")>>>>,
     <<"prog", << <<"sub", 1>>, <<"sv">>, <<"s">>, <<"rw">> >>, << <<"or", JJ("a", "b"), J("a")>> >>>>,
-    <<"prog", << <<"n">>, <<"chk", 1>>, <<"sv">>, <<"sub", 1>>, <<"rw">> >>, <<EmAny>>>> }
+    <<"prog", << <<"n">>, <<"chk", 1>>, <<"sv">>, <<"sub", 1>>, <<"rw">> >>, <<EmAny>>>>,
+    \* a sub-parser that emits and THEN fails: what it emitted stays (nobody rewound), through parse and through check alike
+    <<"prog", << <<"sub", 1>> >>, << <<"then", EmAny, J("b")>> >>>>,
+    <<"prog", << <<"chk", 1>> >>, << <<"then", EmAny, J("b")>> >>>>,
+    <<"prog", << <<"p", "a">>, <<"chk", 1>>, <<"n">> >>, << <<"then", EmAny, <<"then", EmAny, J("!")>>>> >>>> }
 ProgTemplates ==
   Progs \cup {<<"then", pg, RestCap>> : pg \in Progs}
   \cup {<<"or", <<"then", pg, J("!")>>, RestCap>> : pg \in Progs}
@@ -386,7 +390,7 @@ GapTemplates ==
         <<"foldrw", <<"rep", J("a"), 0, Inf>>, <<"tospan", <<"empty">>>>, "g">>}
 (* C04: extension parsers that run a sub-parser through InputRef::parse / InputRef::check, the sub-parser succeeding *)
 (* with a pending error left behind, or failing behind an earlier alternative that got further                        *)
-ExtInner == {<<"ornot", J("a")>>, <<"collect", <<"rep", J("a"), 0, Inf>>, "vec">>, <<"or", JJ("a", "b"), J("a")>>, J("a"),
+ExtInner == {<<"then", <<"validate", <<"any">>, "2", "F">>, J("b")>>, <<"ornot", J("a")>>, <<"collect", <<"rep", J("a"), 0, Inf>>, "vec">>, <<"or", JJ("a", "b"), J("a")>>, J("a"),
              <<"then", J("a"), <<"validate", <<"ornot", J("b")>>, "1", "F">>>>}
 ExtAfter == {J("b"), <<"then", J("b"), J("c")>>, <<"empty">>}
 ExtTemplates ==
@@ -614,6 +618,7 @@ MatchErrs(how, rok, real, model) ==
     [] how = "last" -> ~rok => (Len(real) >= 1 /\ Len(model) >= 1
                                /\ LastKey(RErr(real[Len(real)])) = LastKey(model[Len(model)]))
     [] how = "spans" -> Len(real) = Len(model) /\ \A i \in DOMAIN real : real[i].s = model[i].s /\ real[i].e = model[i].e
+    [] how = "empty" -> (Len(real) = 0) = (Len(model) = 0)
     [] how = "none" -> TRUE
 MatchObs(how, real, model) ==
   LET n == CASE how = "none" -> 0 [] how = "ext" -> 2 [] how = "insp" -> 3 [] how = "all" -> 4 IN
